@@ -1,6 +1,8 @@
 import DaskModel.DriverLib
 import DaskModel.Model.GraphAlg
+import DaskModel.Model.Order
 import DaskModel.Model.TaskTermIO
+import DaskModel.Model.LegacyOpt
 open Dask
 
 namespace GraphDrv
@@ -37,6 +39,28 @@ def hIsdag : Handler := handler fun
     match isdag (← toGraph? g) (← keys.toNats?) with
     | some b => pure (.list [.sym "ok", SExp.ofBool b])
     | none => pure (.list [.sym "raised"])
+  | _ => none
+
+/-- `(valid_order graph ((k prio) ...))` -/
+def hValidOrder : Handler := handler fun
+  | [g, p] => do
+    let p ← (← p.toList?).mapM fun
+      | .list [k, v] => do pure (← k.toNat?, ← v.toNat?)
+      | _ => none
+    pure (SExp.ofBool (Dask.Order.validOrder (← toGraph? g) p))
+  | _ => none
+
+/-- `(strip_prios expected_len s)`: the priorities the frame gives to `s` stripped leaves -/
+def hStripPrios : Handler := handler fun
+  | [n, s] => do pure (SExp.ofNats ((List.range (← s.toNat?)).map (Dask.Order.stripPrio (← n.toNat?))))
+  | _ => none
+
+/-- `(strip graph (task-keys...))` ↦ `((stripped...) (removed-roots...))` -/
+def hStrip : Handler := handler fun
+  | [g, tasks] => do
+    let tasks ← tasks.toNats?
+    let st := Dask.Order.strip (← toGraph? g) (fun k => tasks.contains k)
+    pure (.list [SExp.ofNats st.stripped, SExp.ofNats (st.dataRoots.map Prod.snd)])
   | _ => none
 
 def hReverseDict : Handler := handler fun
@@ -76,6 +100,17 @@ def hLegacyRefs : Handler := handler fun
   | [keys, o] => do pure (.list ((legacyRefs (← objs? keys) (← Obj.ofSExp? o)).map Obj.toSExp))
   | _ => none
 
+def hSubs : Handler := handler fun
+  | [t, k, v] => do pure (subs (← Obj.ofSExp? k) (← Obj.ofSExp? v) (← Obj.ofSExp? t)).toSExp
+  | _ => none
+
+def hCull : Handler := handler fun
+  | [g, keys] => do
+    match cull (← lgraph? g) (← objs? keys) with
+    | some (out, deps) => pure (.list [ofLGraph out, .list (deps.map fun (k, ds) => .list [k.toSExp, .list (ds.map Obj.toSExp)])])
+    | none => pure (.list [.sym "raised"])
+  | _ => none
+
 def hExecGraph : Handler := handler fun
   | [g, cache] => do
     match executeGraph (← ngraph? g) (envOf (← lgraph? cache)) with
@@ -87,9 +122,10 @@ end TermDrv
 
 def table : List (String × Handler) :=
   [("toposort", GraphDrv.hToposort), ("getcycle", GraphDrv.hGetcycle), ("isdag", GraphDrv.hIsdag),
-   ("reverse_dict", GraphDrv.hReverseDict),
+   ("reverse_dict", GraphDrv.hReverseDict), ("valid_order", GraphDrv.hValidOrder), ("strip_prios", GraphDrv.hStripPrios), ("strip", GraphDrv.hStrip),
    ("convert", TermDrv.hConvert), ("convert_graph", TermDrv.hConvertGraph), ("core_get", TermDrv.hCoreGet),
    ("legacy_get", TermDrv.hLegacyGet), ("eval_node", TermDrv.hEvalNode), ("deps", TermDrv.hDeps),
-   ("exec_graph", TermDrv.hExecGraph), ("legacy_refs", TermDrv.hLegacyRefs)]
+   ("exec_graph", TermDrv.hExecGraph), ("legacy_refs", TermDrv.hLegacyRefs),
+   ("subs", TermDrv.hSubs), ("cull", TermDrv.hCull)]
 
 def main : IO Unit := runDriver table
